@@ -866,6 +866,10 @@ def get_typing_lib_info(v):
 
 
 def is_simple_field_annotation(v):
+    if isinstance(v, getattr(types, "UnionType", ())):
+        # "Foo | None" / "Foo | int" (PEP 604, Foo a Structure class): a union, not a field - it is converted
+        # like typing.Union[...] by get_typing_lib_info, whatever its first member is
+        return False
     first_arg = getattr(v, "__args__", [0])[0]
     mros = getattr(first_arg, "__mro__", getattr(v, "__mro__", []))
     return not type_is_generic(v) and (
